@@ -111,11 +111,16 @@ def tool_part(run):
     variants = [(n, via, "") for n in ([0, 1, 5, 9, 12, 13, 40] if not run.thorough else range(0, 41)) for via in ("file", "stdin")]
     # a supplied schema: --autosql FILE / -a FILE / the UCSC spelling -as=FILE, from a file and from stdin
     variants += [(n, via, flag) for n in (1, 4) for via in ("file", "stdin") for flag in ("--autosql", "-a", "-as=")]
+    # ... and lines whose second extra column is EMPTY (it is still a column)
+    variants += [(n, via, "emptycol") for n in (3, 6) for via in ("file", "stdin")]
     for n, via, flag in variants:
-        bed = os.path.join(d, "n%d.bed" % n)
+        emptycol = flag == "emptycol"
+        if emptycol:
+            flag = ""
+        bed = os.path.join(d, "n%d%s.bed" % (n, "e" if emptycol else ""))
         with open(bed, "w") as f:
             for i in range(3):
-                f.write("chrAa\t%d\t%d%s\n" % (i * 3, i * 3 + 2, "".join("\tc%d" % j for j in range(n))))
+                f.write("chrAa\t%d\t%d%s\n" % (i * 3, i * 3 + 2, "".join("\t" + ("" if (emptycol and j == 1) else "c%d" % j) for j in range(n))))
         sizes = os.path.join(d, "n.sizes")
         open(sizes, "w").write("chrAa\t100\n")
         bb = os.path.join(d, "n%d.bb" % n)
@@ -145,7 +150,7 @@ def tool_part(run):
                 q = not q
             elif ch == ";" and not q:
                 sem += 1
-        o = {"kind": "bed", "counts": [], "hfc": 3 + n, "n": n, "via": via, "flag": flag,
+        o = {"kind": "bed", "counts": [], "hfc": 3 + n, "n": n, "via": via, "flag": flag, "emptycol": 1 if emptycol else 0,
              "obs": {"result": "ok" if rc == 0 and rc2 == 0 else "writeerr", "ans": {"result": "accept", "counts": [sem]}, "storedFields": sem, "verbatim": 1, "headerCount": fc}}
         if flag:
             # judged like a valid supplied schema: accepted, declared fields, stored verbatim (what bigbedinfo --autosql prints), header field count
@@ -157,7 +162,7 @@ def tool_part(run):
             o["obs"]["err"] = (err + err2)[-200:]
         obs.append(o)
         lines.append(json.dumps(o, separators=(",", ":")))
-        run.count_case("tool n=%d %s %s" % (n, via, flag), True)
+        run.count_case("tool n=%d %s %s %s" % (n, via, flag, emptycol), True)
     bad = validate_obs("Obs_AutoSql", "Obs.cfg", lines, run.wd, "tool", shards=1)
     run.cov["traces_validated_against_impl"] += len(obs)
     for i, tag in bad:
